@@ -1,7 +1,46 @@
-(* C05/Props.v — the property theorems, nothing else. *)
-Require Import Base.Wire Base.PyStr C05.Model C05.Lemmas.
+(* C05/Props.v — the property theorems, nothing else.
+   Model: C05/Model.v (mirrors src/ircmsgs.py).  Proofs: Lemmas.v, Roundtrip.v. *)
+From Coq Require Import List NArith.
+Import ListNotations.
+Require Import Base.Wire Base.PyStr C05.Model C05.Lemmas C05.Roundtrip.
 
-(* tag values survive escaping and unescaping unchanged, for every string *)
+(* Tag values survive escaping and unescaping unchanged, for every string. *)
 Theorem C05_tag_value_roundtrip : forall v, unescape (escape v) = v.
 Proof. exact tag_value_roundtrip. Qed.
 Print Assumptions C05_tag_value_roundtrip.
+
+(* Serialising any well-formed message and parsing the line gives back the same
+   tags (empty value = missing value, the IRCv3 rule), prefix, command and
+   arguments.  [vt] is datetime.strptime succeeding: any function. *)
+Theorem C05_parse_serialize :
+  forall (vt : str -> bool) (m : msg), wf vt m = true -> parse vt (serialize m) = Ok (norm m).
+Proof. exact parse_serialize. Qed.
+Print Assumptions C05_parse_serialize.
+
+(* Full statement of totality:  forall s, (exists m, parse vt s = Ok m) \/ parse vt s = Raise MalformedIrcMsg.
+   The pinned code violates it (finding F3); proved: it holds on the decidable
+   domain parse_dom, it fails on a witness outside, and nothing but that
+   TypeError ever escapes. *)
+Theorem C05_parse_total_on_domain :
+  forall vt s, parse_dom s = true ->
+  (exists m, parse vt s = Ok m) \/ parse vt s = Raise MalformedIrcMsg.
+Proof. exact parse_total_on_domain. Qed.
+Print Assumptions C05_parse_total_on_domain.
+
+Theorem C05_parse_total_refuted :
+  forall vt, exists s, parse_dom s = false /\ parse vt s = Raise TypeError.
+Proof. intro vt. exists witness_typeerror. exact (parse_total_refuted vt). Qed.
+Print Assumptions C05_parse_total_refuted.
+
+Theorem C05_parse_exn_classes :
+  forall vt s e, parse vt s = Raise e ->
+  e = MalformedIrcMsg \/ (e = TypeError /\ parse_dom s = false).
+Proof. exact parse_exn_classes. Qed.
+Print Assumptions C05_parse_exn_classes.
+
+(* Re-serialising a parsed line gives back that line (the parser only ever
+   appends the missing final LF). *)
+Theorem C05_reserialize :
+  forall s, str_of_parsed s = s \/ (str_of_parsed s = s ++ [LF] /\ endswith1 LF s = false).
+Proof. intro s. unfold str_of_parsed. destruct (endswith1 LF s); auto. Qed.
+Print Assumptions C05_reserialize.
